@@ -1716,4 +1716,47 @@ def root_name(e):
             return None
 
 
+def given_value_problems(ctx, ci, attr, param=None):
+    """Is `self.<attr>` what the constructor was given?  Returns a list of problems (empty = yes): the attribute is
+    written only in __init__, and every value stored there originates (through local copies) from the constructor
+    parameter `param` (default: any constructor parameter) untouched or through int()/float(), or is a literal (the fixed value of a mode in which
+    the parameter does not apply).  `x or DEFAULT`, `max(x, 1)`, `int(x)` are all *not* the given value."""
+    prog = ctx.prog
+    ws = [(f_, node) for f_, k, node in prog.attr_accesses(ci, attr, False) if k in ("write", "aug", "del")]
+    inits = [(f_, node) for f_, node in ws if f_.name == "__init__"]
+    others = [(f_, node) for f_, node in ws if f_.name != "__init__"]
+    out = []
+    if not inits:
+        out.append(("never stored by the constructor", None, None))
+    for f_, node in others:
+        out.append(("written outside the constructor, in %s" % f_.qname, f_, node))
+    for f_, node in inits:
+        cf_ = ctx.cfg(f_)
+        hit = cf_.containing(node)
+        if not hit:
+            continue
+        st_ = hit[0].stmt
+        if not isinstance(st_, ast.Assign):
+            out.append(("stored by `%s`, not by a plain assignment" % norm(st_, 60), f_, node))
+            continue
+        og = value_origins(cf_, hit[0].id, st_.value, params=f_.params)
+        if og is None:
+            out.append(("the stored value `%s` cannot be followed to its origin" % norm(st_.value, 60), f_, node))
+            continue
+        def is_param(dn_, e_):
+            return isinstance(e_, ast.Name) and dn_ == cf_.entry.id and (e_.id == param if param else e_.id in f_.params)
+        for dn, e in og:
+            if is_param(dn, e):
+                continue
+            if isinstance(e, ast.Constant) or (isinstance(e, ast.UnaryOp) and isinstance(e.operand, ast.Constant)):
+                continue
+            if isinstance(e, ast.Call) and isinstance(e.func, ast.Name) and e.func.id in ("int", "float") and len(e.args) == 1 and not e.keywords:
+                # a type coercion of the given value
+                sub = value_origins(cf_, dn, e.args[0], params=f_.params)
+                if sub and all(is_param(d2, e2) for d2, e2 in sub):
+                    continue
+            out.append(("the stored value comes from `%s`, not from %s as given" % (norm(e, 70), "the parameter `%s`" % param if param else "a constructor parameter"), f_, node))
+    return out
+
+
 __all__ = [n for n in dir() if not n.startswith("_")]
